@@ -48,17 +48,18 @@ func (check) Cases(tier string) int {
 }
 
 func (check) Rule() string {
-	return "one JSON document per case: top-level object (8%: list) of depth <= 4 over a pool of plain, odd (spaces, unicode, punctuation, YAML look-alikes) and dotted keys; leaves: strings over a wide alphabet (ASCII punctuation, control characters, Latin-1, NEL/LS/PS/BOM, CJK, non-BMP, YAML/HJSON look-alikes such as \"true\" \"~\" \"1e3\" \"# c\"), integers within +-2^53, floats (tiny, huge, integral), booleans, nulls, {} and []; half of the object documents carry 1-4 top-level string variables referenced from other strings as ${name} (pure or spliced behind a literal prefix), plus $$ escapes and lone $; rendered compact / spaced / indented / loose with shared escapes only (\\\" \\\\ \\b \\f \\n \\r \\t \\uXXXX), shuffled key order. The document is used only if yaml.v2, encoding/json and hjson-go decode it to the same data as the generating tree. Each document is loaded by the three NewConfig and the three NewConfigWithFile functions under every combination of {PathSep(\".\")} x {VarExp} (PathSep skipped when a key contains '.'), observed by Unpack into map, slice and a reflect.StructOf type fitted to the document, and compared three-way, with the tree (VarExp on: with the expanded tree), and file against memory. Then one type/validation fault is grafted at a random path and the six loaders' Unpack errors are checked for the dotted path and the file name (memory: no source). Missing files must give an error and no config. Non-trivial = at least one nested container and at least 3 leaves; distinct = distinct document text."
+	return "one JSON document per case: top-level object (1 in 12: list) of depth <= 4 over a pool of plain keys, odd keys (spaces, unicode, punctuation, YAML look-alikes such as true, ~, #c) and, in 1 document of 8, keys containing '.'; leaves: strings over a wide alphabet (ASCII punctuation, control characters, DEL/C1, NEL, NBSP, LS/PS, BOM, U+FFFE/FFFF, Latin-1, combining marks, CJK, non-BMP) or from a pool of look-alikes (true, null, ~, 1e3, 0x1F, 2001-12-14, '# c', '[1,2]', triple quotes ...), integers within +-2^53, floats (fractions, tiny, huge, integral, -0), booleans, nulls, {} and []; lists of one leaf kind, of objects, or mixed; half of the object documents carry top-level string variables (plain words, or wide-alphabet text for pure references) that other strings reference as ${name} -- pure, or spliced behind a literal prefix, one or two names per string -- plus $$ escapes, $${x} and lone $; rendered compact / spaced / indented 1-8 / loose (random blanks) with sorted or shuffled keys, floats in g/e/f/f.0 form, and only the escapes all three grammars share (backslash-quote, double backslash, \\b \\f \\n \\r \\t, \\uXXXX for BMP). The document is used only if yaml.v2, encoding/json and hjson-go decode it to the same data as the generating tree (else prefilter_rejected). It is loaded by the three NewConfig and the three NewConfigWithFile functions under none / PathSep / VarExp / PathSep+VarExp / VarExp+PathSep (PathSep skipped when a key contains '.'), observed by Unpack into map, slice and two types fitted to the document with reflect.StructOf (struct / *struct with config tags, map[string]T, []T, [N]T, int64 int int32 uint64 uint float64 string bool, pointers to them, interface{}), and compared three-way, with the tree (VarExp: with the expanded tree), and file against memory. Missing files must give an error and no config. Then two faults (17 kinds: conversions, overflow, negative into unsigned, object/string clashes, min/max/positive/nonzero/required validators) are grafted at random paths of 1-5 keys/indices and the six loaders' Unpack errors must name the quoted dotted path; the file loaders' errors must contain the file name, the in-memory ones no source. Non-trivial = at least one nested container and at least 3 leaves; distinct = distinct document text."
 }
 
 func (check) Assumptions() []string {
 	return []string{
 		"the three raw decoders are trusted: a document they do not decode identically (up to number type and map key type) and equal to the generating tree is discarded and counted (prefilter_rejected)",
-		"canonical comparison: numbers by value (all integers within +-2^53, so float64 is exact), nil == {} == [] == absent key inside dictionaries; typed targets compared three-way exactly (nil/empty kept apart, numbers inside interface{} by value) and with the tree leniently where the tree holds null/empty",
-		"keys are never numeric, never empty; keys with '.' only without PathSep; each ${name} names a top-level plain string of the same document, at most once per string (repeating one variable inside one string is C08's open defect), splices are built so that their expansion is not re-typed by parse.Value",
-		"typed targets avoid the container-pointer shapes that C06/C07 already report ([]*map, map[string]*map, *[N]T, **T)",
-		"errors are inspected only for containing the file name and the quoted dotted path; not for their wording, reason or type (C14)",
-		"not demanded: integers beyond +-2^53, decoder syntax errors, YAML-only or HJSON-only syntax, which MetaData wins when the caller passes one to a *WithFile loader",
+		"canonical comparison: numbers by value (all integers within +-2^53, so float64 is exact), nil == {} == [] == absent key inside dictionaries; typed targets compared three-way exactly (nil/empty kept apart, numbers inside interface{} by value) and with the tree leniently where the tree holds null or nothing",
+		"keys are never numeric and never empty; keys with '.' only without PathSep; each ${name} names a top-level plain string of the same document and every variable is referenced at most once per document (a second evaluation of one name inside one Unpack call is C08's open defect); splices are built so that their expansion is returned unchanged as a string by parse.Value",
+		"typed targets never put pointers inside slices or maps and never point to maps, slices or arrays (C06/C07 report those shapes); numbers are never unpacked into strings, floats never into integers",
+		"errors are inspected only for containing the file name and the quoted dotted path, not for wording, reason or type (C14); whether a fault is raised at all is C03/C04's business: if no front-end raises it the case is only counted (fault_not_raised_by_any_frontend)",
+		"list elements before the faulty one are null or conform to the target, because Unpack reports the first error in list order",
+		"not demanded: integers beyond +-2^53 (an integral float is never printed as a plain integer literal beyond 2^53), decoder syntax errors, YAML-only or HJSON-only syntax, which MetaData wins when the caller passes one to a *WithFile loader",
 	}
 }
 
@@ -95,7 +96,7 @@ type docGen struct {
 	safeVars []string // variables not referenced yet whose value is safe inside splices
 	wildVars []string // variables not referenced yet with wide-alphabet values (pure references only)
 	allVars  []string // every variable name
-	dotted   bool // this document may use keys containing '.'
+	dotted   bool     // this document may use keys containing '.'
 	hasDot   bool
 	hasRef   bool
 }
@@ -768,13 +769,13 @@ func prefilter(text []byte, tree *model.Node) string {
 	strictNode(&want, tree)
 	var y, j, h interface{}
 	if err := rawyaml.Unmarshal(text, &y); err != nil {
-		return "yaml-decoder-error"
+		return "yaml-decoder-error|" + err.Error()
 	}
 	if err := stdjson.Unmarshal(text, &j); err != nil {
-		return "json-decoder-error"
+		return "json-decoder-error|" + err.Error()
 	}
 	if err := rawhjson.Unmarshal(text, &h); err != nil {
-		return "hjson-decoder-error"
+		return "hjson-decoder-error|" + err.Error()
 	}
 	for i, v := range []interface{}{j, y, h} {
 		var got strings.Builder
@@ -1451,7 +1452,9 @@ func (check) Run(seed int64, tier string, idx int, verbose bool) harness.Result 
 		res.Ev("missing_file_checked", 1)
 	}
 
-	faultPhase(res, r, g, tree, dir, stem, verbose)
+	for f := 0; f < 2; f++ {
+		faultPhase(res, r, g, tree, dir, stem, verbose)
+	}
 	return res.Done()
 }
 
@@ -1627,8 +1630,14 @@ func faultPhase(res *harness.R, r *rand.Rand, g *docGen, tree *model.Node, dir, 
 	text := render(r, res, ft)
 	if why := prefilter(text, ft); why != "" {
 		res.Ev("prefilter_rejected_fault_document", 1)
-		reason, _, _ := strings.Cut(why, "|")
+		reason, example, _ := strings.Cut(why, "|")
 		res.SetAdd("prefilter_reason", reason)
+		if example != "" {
+			res.SetAdd("prefilter_example", reason+": "+example)
+		}
+		if verbose {
+			fmt.Printf("fault document rejected by the prefilter (%s):\n%s\n", why, text)
+		}
 		return
 	}
 	shapeName := ""
